@@ -77,6 +77,12 @@ CLAIMS["C12"] = {
     "design_ref": "DESIGN.md section 4, C12",
     "note": "Trusted: Lean kernel + standard axioms; that torch.rand_like yields independent uniform draws on [0,1) (the model's input) - supported by rate and lag-1 independence statistics on 10^6 symbols with a false-alarm bound <= 1e-9, recorded in the evidence, never used as a violation by themselves.",
 }
+CLAIMS["C07"] = {
+    "technique": "Lean 4 algebra over the rationals / reals with the unit draws as inputs and square roots replaced by sign + square (noise power identities for every parameterisation, same-seed scaling, the single SNR definition via Mathlib logb/rpow); correspondence through re-seeded float64 runs comparing each noise sample's sign and square with the model",
+    "text": "Unbounded theorems: noise = s.z with s^2 = P gives sum noise^2 = P.sum z^2 (real) and P.(sum z_r^2 + sum z_i^2)/2 (complex, P/2 per component); the per-component multipliers of AWGN and of the Laplacian power / scale parameterisations (raw Laplacian variance 2) add up to the configured power; same draws with two powers differ by the factor sqrt(P2/P1); P = S/10^j gives S/P = 10^j exactly, and over the reals 10.log10(S/(S/10^(snr/10))) = snr, dB<->linear are mutually inverse, and the SNR measured on a channel output is snr - 10.log10(mean z^2). Tie: AWGN / Laplacian (scale, power, SNR) / nonlinear+noise channels are run in float64 after torch.manual_seed(s); the draws are regenerated with the same seed and call sequence; every added noise sample must have the sign of its draw and its square must equal the model's P_component.z_i^2 (rel 2e-6; 5e-6 for float32 Laplacian draws) for powers 1e-4..1e3, real and complex, three shapes; SNR mode for integer decades through the exact model, other SNRs through the float64 formula; conversions on a 0.5 dB grid; calculate_snr / noise_power_to_snr / add_noise_for_snr / pregenerated noise checked against the same relations.",
+    "design_ref": "DESIGN.md section 4, C07",
+    "note": "Trusted: Lean kernel + standard axioms (reals); zero mean / unit variance / independence of torch.randn, torch.rand (supported by 10^6-sample statistics in the evidence, never a violation alone); float arithmetic within the stated tolerances. Listed finding: SignalToNoiseRatio reports +inf for noise power below float32 eps (test-pinned).",
+}
 
 NOT_YET = {}
 
